@@ -170,6 +170,11 @@ func (c *Class) Evaluation(
 			parentFrame = base.CalculateFrame(parentFrame, parentNamespace)
 		}
 
+		// an unqualified superclass is looked up in the enclosing namespaces first
+		if parentFrame == "" && !base.IsNameSpace(nextT.ToString()) {
+			parentFrame = base.ResolveClassFrame(ctx.GetFrame(), parentClass)
+		}
+
 		parentNode := base.ClassNode{Frame: parentFrame, Class: parentClass}
 
 		if base.IsInheritanceCycle(classNode, parentNode) {
